@@ -13,8 +13,9 @@
     SymmCards.set_centric                    (cards.py)    -> `setCentric`  (inversion and its centred copies)
     SymmCards.append                         (cards.py)    -> `append`      (with the `not in` test)
     Shelxfile._parse_cards, LATT/SYMM branch (shelx.py)    -> `expandWith`, `expand`
-  Specification (code independent): `comp`, `specCentring` (the SHELXL manual's LATT table), `fullGroup`,
-  `ValidSetting`, `Closed`.
+  The operators, the specification (`comp`, `specCentring` — the SHELXL manual's LATT table —, `fullGroup`,
+  `ValidSetting`, `Closed`) and the executable checkers are in ShelxModel/C11Core.lean, which does not import the
+  regenerated table (so the kernel checks over the tabulated settings are not redone when only `lattdict` changes).
 -/
 import ShelxModel.C11Core
 import ShelxModel.Extracted.Latt
